@@ -300,6 +300,24 @@ func tickerWiring(c *Check, t *Tracker) {
 		return
 	}
 	c.Fn(funcDisplayName(read))
+	// the processor's loop function: Read, or the function of its package
+	// holding the blocking select loop when Read was split
+	entryRead := read
+	{
+		var best *ssa.Select
+		for _, bf := range cmdBody(p, read) {
+			allInstrs(bf, func(in ssa.Instruction) {
+				if s, ok := in.(*ssa.Select); ok && s.Blocking && (best == nil || len(s.States) > len(best.States)) {
+					best = s
+				}
+			})
+		}
+		if best != nil && best.Parent() != read {
+			read = best.Parent()
+			c.Fn(funcDisplayName(read))
+		}
+	}
+	_ = entryRead
 	r := NewResolver(p)
 	// the calls of the two sweeps: in the processor's loop function or in a
 	// function of its package that it calls (directly, or through an
@@ -422,6 +440,12 @@ func tickerWiring(c *Check, t *Tracker) {
 			}
 			// channel = ticker.C
 			co := r.Of(st.Chan)
+			if co.K == "param" {
+				// the ticker's channel handed to the loop function by Read
+				if ups := resolveUp(p, read, st.Chan, 0); len(ups) == 1 {
+					co = ups[0]
+				}
+			}
 			whyT = "the case is driven by " + trimOrg(co.String())
 			if co.K == "field" && co.Name == "C" {
 				tk := co.Sub[0]
@@ -429,6 +453,21 @@ func tickerWiring(c *Check, t *Tracker) {
 					nc := tk.V.(*ssa.Call)
 					per, isK := nc.Call.Args[0].(*ssa.Const)
 					switch {
+					case nc.Parent() != sel.Parent() && !inLoop(nc):
+						// created by the caller before it enters the loop function
+						okCaller := false
+						for _, site := range staticCallers(p, sel.Parent()) {
+							if site.Parent() == nc.Parent() && dominatesInstr(nc, site) && !inLoop(site) {
+								okCaller = true
+							}
+						}
+						if !okCaller {
+							whyT = "the ticker is not created once before the loop function is entered"
+						} else if !isK || per.Value == nil || per.Int64() != oneMinuteNs {
+							whyT = "the ticker's period is not the one-minute constant"
+						} else {
+							okTick = true
+						}
 					case inLoop(nc) || !dominatesInstr(nc, sel):
 						whyT = "the ticker is created inside the loop: every other event restarts the period and cleanup may never run"
 					case !isK || per.Value == nil || per.Int64() != oneMinuteNs:
